@@ -667,11 +667,12 @@ class MultiHeadDotProductAttention(Module):
       attn_weights_value_einsum=attn_weights_value_einsum,
       bias=attention_bias,
     )
-    attn_kwargs = {
-        k: v
-        for k, v in attn_kwargs.items()
-        if k in inspect.signature(self.attention_fn).parameters
-    }
+    fn_params = inspect.signature(self.attention_fn).parameters
+    if not any(
+        p.kind is inspect.Parameter.VAR_KEYWORD for p in fn_params.values()
+    ):
+      # an attention_fn that takes **kwargs accepts all of them
+      attn_kwargs = {k: v for k, v in attn_kwargs.items() if k in fn_params}
     if sow_weights:
       x = self.attention_fn(*attn_args, **attn_kwargs, module=self)
     else:
